@@ -33,6 +33,15 @@ CHECKS = {
    note="Trusted: TLC, the harness's polygon constructors, the random generators (their output is re-checked for simplicity by "
         "TLC). Paths: three-valued oracle, caps/corners unconstrained.",
    tech="TLA+ exact-geometry spec + TLC exhaustive small-lattice enumeration; S->I replay and I->S trace validation"),
+ "C12": dict(cat="model_checking", ref="§6 C12",
+   text="D4.tla is the placement algebra (reflect, then rotate CCW, then translate) with integer matrices; MC_D4 models "
+        "flattening as one Descend action per hierarchy level and TLC checks group laws, mirror parity and composed=sequential "
+        "on every chain of depth <=4 (quick: depth 4 sampled); every emitted chain is evaluated in the real code through "
+        "from_instance cascades, elementary transform cascades and Layout::flatten of a nested library, on 49 grid points. "
+        "Rational (Pythagorean) rotations cover general angles with the half-unit tolerance.",
+   note="Trusted: TLC, the harness's nested-library builder and its 2x2 integer map application. General angles only for "
+        "rational sine/cosine.",
+   tech="TLA+ placement algebra + flatten state machine, TLC exhaustive; S->I replay"),
 }
 
 PENDING = {}
